@@ -60,14 +60,20 @@ func runMuxConc(id int, r *rand.Rand) mcLine {
 	}
 	keys := []key{{t: "name", name: "CCR"}, {t: "idx", app: 4, code: 272, req: true}, {t: "all"}, {t: "name", name: "CCA"}, {t: "idx", app: 4, code: 272, req: false}}
 	hold := []time.Duration{0, 0, 20 * time.Microsecond, 200 * time.Microsecond}
+	// every fifth scenario: the handlers panic on requests of the first dispatcher (recovered by the caller, as
+	// conn.serve does); whatever is registered or dispatched afterwards goes on as usual
+	panics := id%5 == 0
 	mkHandler := func(hid int, d time.Duration) diam.HandlerFunc {
 		return func(_ diam.Conn, m *diam.Message) {
 			p := []string{"d1", "d2", "d3"}[m.Header.HopByHopID%3]
 			log(mcEvent{Ev: "fired", P: p, Hid: hid})
+			defer log(mcEvent{Ev: "h.end", P: p})
 			if d > 0 {
 				time.Sleep(d)
 			}
-			log(mcEvent{Ev: "h.end", P: p})
+			if panics && p == "d1" {
+				panic("scripted handler panic")
+			}
 		}
 	}
 	// per-goroutine plans are drawn before the goroutines start (one random source)
@@ -133,14 +139,27 @@ func runMuxConc(id int, r *rand.Rand) mcLine {
 				m := diam.NewMessage(272, f, 4, uint32(i), uint32(i), dict.Default)
 				m.Header.HopByHopID = uint32(i)
 				log(mcEvent{Ev: "d.call", P: p, App: 4, Code: 272, Req: c.req, Short: "CC"})
-				mux.ServeDIAM(nil, m)
+				func() {
+					defer func() { recover() }()
+					mux.ServeDIAM(nil, m)
+				}()
 				log(mcEvent{Ev: "d.ret", P: p})
 			}
 		}(i)
 	}
 	close(start)
-	wg.Wait()
+	fin := make(chan struct{})
+	go func() { wg.Wait(); close(fin) }()
+	select {
+	case <-fin:
+	case <-time.After(3 * time.Second):
+		// some call never returned (a lock left held): the log so far, closed by an event no model step explains
+		log(mcEvent{Ev: "hung"})
+	}
 	close(stop)
+	mu.Lock()
+	l.Events = append([]mcEvent(nil), l.Events...)
+	mu.Unlock()
 	return l
 }
 
